@@ -341,6 +341,9 @@ func (c *FnCtx) execInstr(fr *Frame, st *State, in ssa.Instruction) {
 		p := &PtrVal{obj: o, root: t}
 		if !isOpaqueStruct(t) {
 			c.store(st, p, tc.Zero(t))
+		} else if k := typeKey(t); k == "bytes.Buffer" || k == "strings.Builder" {
+			// the zero value of a Buffer / Builder is an empty buffer
+			c.gset(st, "G:buf", o, ts.Str(""))
 		}
 		fr.regs[x] = p
 	case *ssa.Store:
